@@ -404,7 +404,7 @@ pub fn run(rep: &mut Report) {
     });
 
     // (3) random mixes
-    let n = if rep.tier == "thorough" { 60_000 } else { 3_000 };
+    let n = if rep.tier == "thorough" { 300_000 } else { 30_000 };
     run_cases(rep, "mix", n, |rep, rng, idx| {
         let k = 1 + rng.usize_below(4);
         let apps: Vec<AppSpec> = (0..k)
